@@ -283,6 +283,33 @@ class Facts:
         self.unsafe = self.raw["unsafe"]
         self.impls = self.raw["impls"]
 
+    def frozen_fields(self):
+        """Names of struct fields of the crate that are written only when the struct is built: no assignment to a
+        place ending in the field and no `&mut` borrow of such a place anywhere in the crate."""
+        if getattr(self, "_frozen", None) is None:
+            names = set()
+            for a in self.raw.get("adts", []):
+                if (a.get("span") or {}).get("file", "").startswith(self.crate + "/") or True:
+                    for v in a.get("variants", []):
+                        for f in v.get("fields", []):
+                            names.add(f["name"])
+            written = set()
+            for b in self.bodies:
+                for blk in b.blocks:
+                    for st in blk["stmts"]:
+                        if st["k"] != "assign":
+                            continue
+                        for e in st["place"]["p"]:
+                            if isinstance(e, dict) and "f" in e:
+                                written.add(e["f"])
+                        rv = st["rv"]
+                        if rv.get("k") in ("ref", "rawptr") and rv.get("mut"):
+                            for e in rv["place"]["p"]:
+                                if isinstance(e, dict) and "f" in e:
+                                    written.add(e["f"])
+            self._frozen = names - written
+        return self._frozen
+
     def body(self, path):
         """Exact (lifetime-stripped) def path; returns None when missing."""
         bs = self.by_path.get(path)
